@@ -36,6 +36,7 @@ func wireStructs(fn *ssa.Function, callee string) []*types.Struct {
 }
 
 func runC38(c *Ctx) {
+	sweepC38(c)
 	// ---- (a) type binding
 	for _, spec := range []struct{ pkg, fn string }{{"ssh", "ParseAuthorizedKey"}, {"ssh", "ParseKnownHosts"}, {"ssh/knownhosts", "parseLine"}} {
 		f := c.fn(spec.pkg, spec.fn)
